@@ -217,7 +217,7 @@ func (r *runner) writeLaws(dir string, idx []int) {
 
 func (r *runner) build(dir string) (out string, ok bool) {
 	r.res.Builds++
-	out, rc, to := run(dir, nil, 10*time.Minute, "go", "build", "-gcflags=-e", "-o", "lawbin", ".")
+	out, rc, to := run(dir, nil, 10*time.Minute, "go", "build", "-trimpath", "-gcflags=-e", "-o", "lawbin", ".")
 	if to {
 		internalf("go build timed out in %s", dir)
 	}
